@@ -4,6 +4,7 @@ import (
 	"encoding/json"
 	"fmt"
 	"net/url"
+	"os"
 	"path/filepath"
 	"strings"
 	"time"
@@ -11,6 +12,7 @@ import (
 	"github.com/olareg/olareg/config"
 	"github.com/olareg/olareg/internal/verif/h"
 	"github.com/olareg/olareg/internal/verif/vos"
+	"github.com/olareg/olareg/internal/verif/vrt"
 	"github.com/olareg/olareg/types"
 )
 
@@ -365,6 +367,111 @@ func c16Specs(tier string) []*h.SeqSpec {
 				MaxDepth: depth,
 			})
 		}
+	}
+	specs = append(specs, c16RootSpellings(f)...)
+	return specs
+}
+
+// c16RootSpellings: the root directory is configured in a spelling that is not the cleaned one (trailing separator as in
+// "--dir mirror/", a doubled separator, "./" and "../" elements). Repositories (plain and nested) are filled and emptied,
+// collections run on ticks and at a restart and remove the emptied layouts. Every filesystem call, cleaned, stays inside the
+// root; the sentinel tree around the root and the root directory itself stay as they were.
+func c16RootSpellings(f *Fix) []*h.SeqSpec {
+	var specs []*h.SeqSpec
+	spell := []struct {
+		name string
+		f    func(outer string) string
+	}{
+		{"trailing-separator", func(o string) string { return o + "/root/" }},
+		{"doubled-separator", func(o string) string { return o + "//root" }},
+		{"dot-element", func(o string) string { return o + "/./root" }},
+		{"dot-dot-element", func(o string) string { return o + "/sibling/../root" }},
+	}
+	pol := GCPolicy{Untagged: true, Dangling: true, WithSubj: true, EmptyRepo: true, Grace: -1, Freq: 15 * time.Minute}
+	for _, sp := range spell {
+		sp := sp
+		check := func(name string, do func(w *h.World)) h.Op {
+			return h.Op{Name: name, Do: func(w *h.World) []h.Violation {
+				ls := vos.LogLen()
+				do(w)
+				vrt.Quiesce()
+				var vs []h.Violation
+				for _, op := range vos.Log()[ls:] {
+					for _, p := range []string{op.Path, op.Path2} {
+						if p == "" {
+							continue
+						}
+						if c := filepath.Clean(p); c != w.Dir && !strings.HasPrefix(c, w.Dir+"/") {
+							vs = append(vs, h.V("storage-inside-root", "fs-access-outside-root", "%s (root configured as %q): %s %s is outside the root", name, w.Cfg.Storage.RootDir, op.Kind, p))
+						} else if c == w.Dir && op.Mut && op.Kind != "mkdir" && op.Kind != "mkdirall" {
+							vs = append(vs, h.V("storage-inside-root", "root-directory-itself-changed", "%s (root configured as %q): %s %s acts on the root directory itself, an entry of the directory around it", name, w.Cfg.Storage.RootDir, op.Kind, p))
+						}
+					}
+				}
+				if snap := c16Outer(w); snap != w.Aux["outer"] {
+					vs = append(vs, h.V("storage-inside-root", "sentinel-tree-changed", "the directory around the root changed:\n%s", lineDiff(w.Aux["outer"], snap)))
+				}
+				if st, err := os.Stat(w.Dir); err != nil || !st.IsDir() {
+					vs = append(vs, h.V("storage-inside-root", "root-directory-removed", "%s (root configured as %q): the root directory is gone afterwards", name, w.Cfg.Storage.RootDir))
+				}
+				return vs
+			}}
+		}
+		var ops []h.Op
+		l1 := f.Items["l1"]
+		for _, repo := range []string{"a", "a/b/c"} {
+			repo := repo
+			ops = append(ops, check("push blob l1 to "+repo, func(w *h.World) {
+				if w.PushBlob(repo, l1.Data, l1.Dig).Status == 201 {
+					w.Slots["has:"+repo] = "1"
+				}
+			}))
+			ops = append(ops, check("delete blob l1 from "+repo, func(w *h.World) {
+				if w.Do(h.Req{Method: "DELETE", Path: "/v2/" + repo + "/blobs/" + l1.Dig}).Status == 202 {
+					delete(w.Slots, "has:"+repo)
+				}
+			}))
+		}
+		// an unreferenced blob may be collected by a pass (there is no grace period here): its presence is open afterwards
+		open := func(w *h.World) {
+			for k, v := range w.Slots {
+				if strings.HasPrefix(k, "has:") && v == "1" {
+					w.Slots[k] = "?"
+				}
+			}
+		}
+		ops = append(ops, check("collection tick", func(w *h.World) { gcTick(w); open(w) }))
+		ops = append(ops, check("restart", func(w *h.World) { _ = w.Reopen(); open(w) }))
+		specs = append(specs, &h.SeqSpec{
+			Name: "c16-dir-root-spelled-with-" + sp.name,
+			Conf: &h.Conf{Name: "dir-" + sp.name, Store: "dir", Nest: true, Mod: func(c *config.Config) {
+				pol.Apply(c)
+				c.Storage.RootDir = sp.f(filepath.Dir(c.Storage.RootDir))
+			}},
+			Init: func(w *h.World) { w.Aux["outer"] = c16Outer(w) },
+			Ops:  ops,
+			Model: func(w *h.World) string {
+				return w.Slots["has:a"] + "|" + w.Slots["has:a/b/c"]
+			},
+			Probe: func(w *h.World) []h.Violation {
+				var vs []h.Violation
+				for _, repo := range []string{"a", "a/b/c"} {
+					want := 404
+					switch w.Slots["has:"+repo] {
+					case "1":
+						want = 200
+					case "?":
+						continue
+					}
+					if r := w.Head("/v2/" + repo + "/blobs/" + l1.Dig); r.Status != want {
+						vs = append(vs, h.V("content-only-where-pushed", "blob-presence-wrong-under-root-spelling", "HEAD of l1 in %s (root configured as %q) answers %s, want %d", repo, w.Cfg.Storage.RootDir, r, want))
+					}
+				}
+				return vs
+			},
+			NonTriv:  func(w *h.World) bool { return len(w.Hist) >= 2 },
+			MaxDepth: 5,
+		})
 	}
 	return specs
 }
